@@ -278,6 +278,31 @@ class C20(Prop):
                     [s for s in SHAPES if 'P' not in s['pos'] or shape_index(s) == shape_index(shape_out)]),
                 'decoy': rng.random() < 0.5}
 
+    def mk_series(self, rng, cassette=None, n=None):
+        """consecutive operations of one long-lived service: same handlers, same working paths; a delivery often has the
+        size AND the modification time of the previous one but different bytes"""
+        shape = rng.choice(SHAPES[:3])
+        n = n or rng.randint(2, 5)
+        size = rng.choice([0, 1, 5, 24, 24, 57, 100, 300])
+        mtime = 1700000000
+        ds = []
+        for i in range(n):
+            c = rng.random()
+            if i and c < 0.25:
+                size = rng.choice([0, 1, 5, 24, 57, 100, 300])
+            if i and rng.random() < 0.3:
+                mtime += 500
+            content = self.rand_content(rng, size)
+            if i and c > 0.9:
+                content = bytes.fromhex(ds[-1]['in']['hex'])          # really unchanged
+            out = 'echo' if rng.random() < 0.7 else {'hex': self.rand_content(rng, size).hex()}
+            ds.append({'in': {'hex': content.hex()}, 'out': out, 'mtime': mtime if rng.random() < 0.9 else None})
+        lim = rng.choice([{'explicit': {'float': ['1', '1']}}, {'explicit': None, 'env': None},
+                          {'explicit': {'float': ['100', str(MB)]}}])
+        return {'kind': 'series', 'cassette': cassette or rng.choice(['mem', 'file', 's3']), 'static': rng.random() < 0.3,
+                'limit': lim, 'in_index': shape_index(shape), 'out_index': shape_index(shape),
+                'recIn': shape, 'repIn': shape, 'recOut': shape, 'repOut': shape, 'decoy': False, 'deliveries': ds}
+
     def rand_limit(self, rng):
         """a limit and the byte boundary it implies (None when the boundary is not small)"""
         c = rng.random()
@@ -341,6 +366,9 @@ class C20(Prop):
             which = rng.choice(['recIn', 'repIn', 'recOut', 'repOut'])
             c[which] = rng.choice(BAD_SHAPES)
             cases.append(c)
+        # 5b. series: several operations through ONE pair of handlers, each replayed afterwards
+        for _ in range(40 if quick else 600):
+            cases.append(self.mk_series(rng))
         # 6. unit cases: path selection and the size rule
         for _ in range(60 if quick else 1500):
             npos = rng.randint(0, 3)
@@ -368,6 +396,8 @@ class C20(Prop):
             return self.impl_path(case)
         if case['kind'] == 'limit':
             return self.impl_limit(case)
+        if case['kind'] == 'series':
+            return self.impl_series(case)
         return self.impl_trip(case)
 
     def impl_path(self, case):
@@ -421,25 +451,34 @@ class C20(Prop):
         return S3TapeCassette('bucket-c20', key_prefix='pre', read_only=False)
 
     def impl_trip(self, case):
+        return self.impl_trips(case, [{'in': case['in'], 'out': case['out'], 'mtime': None}])[0]
+
+    def impl_series(self, case):
+        return self.impl_trips(case, case['deliveries'])
+
+    def impl_trips(self, case, deliveries):
+        """One TapeRecorder, ONE pair of file data handlers (as the decorators create them) and one working directory;
+        the operation is recorded once per delivery, then every recording is replayed in its own fresh directory.
+        Returns one transcript per delivery."""
         from playback.tape_recorder import TapeRecorder
         from playback.interception.files.input_file_interception import InputInterceptionFileDataHandler
         from playback.interception.files.output_file_interception import OutputInterceptionFileDataHandler
         _install_spy()
         tmp = tempfile.mkdtemp(prefix='c20t')
         rec_dir = os.path.join(tmp, 'rec')
-        rep_dir = os.path.join(tmp, 'rep')
+        rep_dirs = [os.path.join(tmp, 'rep%d' % i) for i in range(len(deliveries))]
         os.mkdir(rec_dir)
-        os.mkdir(rep_dir)
+        for d in rep_dirs:
+            os.mkdir(d)
         static = case['static']
         explicit, env = limit_python(case['limit'])
-        in_content = content_bytes(case['in'])
-        echo = case['out'] == 'echo'
-        out_given = None if echo else content_bytes(case['out'])
         state = {}
 
         def canon_path(p):
             if isinstance(p, str):
-                return p.replace(rec_dir, '<REC>').replace(rep_dir, '<REP>')
+                p = p.replace(rec_dir, '<REC>')
+                for d in rep_dirs:
+                    p = p.replace(d, '<REP>')
             return p
 
         def pval(v):
@@ -448,6 +487,12 @@ class C20(Prop):
             if isinstance(v, str):
                 return {'s': canon_path(v)}
             return 'o'
+
+        def stamp(path):
+            # the delivered file keeps the modification time of its source (cp -p, rsync -t, archive extraction)
+            mtime = state['delivery'].get('mtime')
+            if mtime is not None:
+                os.utime(path, (mtime, mtime))
 
         try:
             with _env(env):
@@ -459,7 +504,8 @@ class C20(Prop):
 
             def fetch_body(*args, **kwargs):
                 d = state['dir']
-                h_write(os.path.join(d, 'in.bin'), in_content)
+                h_write(os.path.join(d, 'in.bin'), content_bytes(state['delivery']['in']))
+                stamp(os.path.join(d, 'in.bin'))
                 if case['decoy']:
                     h_write(os.path.join(d, 'decoy.bin'), b'decoy')
                 return 'fetched'
@@ -474,7 +520,10 @@ class C20(Prop):
             class Op(object):
                 @tr.operation()
                 def run(self, phase):
+                    if phase == 'rec':
+                        state['rid'] = tr.current_recording_id
                     d = state['dir']
+                    echo = state['delivery']['out'] == 'echo'
                     p_in, p_out, dec = os.path.join(d, 'in.bin'), os.path.join(d, 'out.bin'), os.path.join(d, 'decoy.bin')
                     call = case['recIn' if phase == 'rec' else 'repIn']
                     a = [tok_value(t, p_in, dec) for t in call['pos']]
@@ -486,8 +535,9 @@ class C20(Prop):
                     data = h_read(p_in)
                     state[phase + '_seen'] = data
                     state[phase + '_watch'] = {'<DIR>/in.bin': data, '<DIR>/decoy.bin': h_read(dec)}
-                    out = (data or b'') if echo else out_given
+                    out = (data or b'') if echo else content_bytes(state['delivery']['out'])
                     h_write(p_out, out)
+                    stamp(p_out)
                     state[phase + '_out_written'] = out
                     call = case['recOut' if phase == 'rec' else 'repOut']
                     a = [tok_value(t, p_out, dec) for t in call['pos']]
@@ -507,74 +557,84 @@ class C20(Prop):
                     def emit(self, *args, **kwargs):
                         return emit_body(*args, **kwargs)
 
-            # ---- record
-            state['dir'] = rec_dir
-            _SPY['roots'] = (rec_dir, rep_dir)
-            _SPY['log'] = []
-            _SPY['on'] = True
-            try:
-                Op().run('rec')
-            finally:
-                _SPY['on'] = False
-            rec_reads = [canon_path(p) for p in _SPY['log']]
+            # ---- record every delivery, one operation after the other, same handlers, same working paths
+            _SPY['roots'] = tuple([rec_dir] + rep_dirs)
+            recorded = []
+            for dl in deliveries:
+                state['delivery'], state['dir'] = dl, rec_dir
+                state.pop('rid', None)
+                state.pop('rec_out_written', None)
+                _SPY['log'] = []
+                _SPY['on'] = True
+                try:
+                    Op().run('rec')
+                finally:
+                    _SPY['on'] = False
+                recorded.append({'rid': state.get('rid'), 'rec_reads': [canon_path(p) for p in _SPY['log']],
+                                 'rec_out_written': state.get('rec_out_written')})
             tr.disable_recording()
-            ids = self.saved_ids(cassette, case['cassette'])
-            if not ids:
-                return {'discarded': True, 'rec_reads': rec_reads}
-            rid = ids[0]
-            rec = cassette.get_recording(rid)
-            t = {'rec_reads': rec_reads}
-            env_in = rec.get_data(IN_KEY)['value']
-            env_out = rec.get_data(OUT_KEY)
-            t['in'] = {'stored': digest_hex(bytes(env_in['file_content']).hex()), 'path': pval(env_in['file_path'])}
-            # ---- replay in a fresh directory; the recorded files are gone
+            # ---- the recorded files are gone; replay each recording in its own fresh directory
             with _quiet():
                 shutil.rmtree(rec_dir)
                 os.mkdir(rec_dir)
-            if case['decoy']:
-                h_write(os.path.join(rep_dir, 'decoy.bin'), b'decoy')
-            state['dir'] = rep_dir
-            _SPY['log'] = []
-            _SPY['on'] = True
-            try:
-                pb = tr.play(rid, lambda recording: Op().run('rep'))
-            finally:
-                _SPY['on'] = False
-            t['rep_reads'] = [canon_path(p) for p in _SPY['log']]
-            t['restored_ret'] = state.get('rep_ret')
-            seen = state.get('rep_seen')
-            t['restored_bytes'] = None if seen is None else digest_hex(seen.hex())
-            t['rep_decoy'] = (lambda b: None if b is None else b.hex())(state['rep_watch']['<DIR>/decoy.bin'])
-            with _quiet():
-                t['written_into_rec_dir'] = sorted(os.listdir(rec_dir))
-            rec_outs = [o for o in pb.recorded_outputs if o.key == OUT_KEY]
-
-            def restore(value):
-                """(holder content, holder path, holder) - a raising restore is an observation, not a harness failure"""
+            results = []
+            for dl, r, rep_dir in zip(deliveries, recorded, rep_dirs):
                 try:
-                    hd = oh.restore_output_from_recording(value)
-                    return digest_hex(bytes(hd.file_content).hex()), pval(hd.output_file_path), hd
-                except Exception as ex:
-                    return 'raised ' + type(ex).__name__, None, None
-            hc, hp, _hd = restore(rec_outs[0].value)
-            t['out'] = {'stored': digest_hex(bytes(env_out['file_content']).hex()), 'path': pval(env_out['file_path']),
-                        'holder': hc, 'holder_path': hp}
-            pb_outs = [o for o in pb.playback_outputs if o.key == OUT_KEY]
-            if pb_outs:
-                hc, hp, hd = restore(pb_outs[0].value)
-                t['pb'] = {'stored': digest_hex(bytes(pb_outs[0].value['file_content']).hex()),
-                           'path': pval(pb_outs[0].value['file_path']), 'holder': hc, 'holder_path': hp}
-                if hd is not None:
-                    # the holder can be written out again
-                    q = os.path.join(rep_dir, 'again.bin')
-                    with _quiet():
-                        hd.to_file(q)
-                    t['pb_to_file_ok'] = h_read(q) == bytes(hd.file_content)
-            else:
-                t['pb'] = None
-            t['_rec_out_written'] = digest_hex(state['rec_out_written'].hex()) if isinstance(state.get('rec_out_written'), bytes) else None
-            t['_rep_out_written'] = digest_hex(state['rep_out_written'].hex()) if isinstance(state.get('rep_out_written'), bytes) else None
-            return t
+                    rec = cassette.get_recording(r['rid'])
+                except Exception:
+                    results.append({'discarded': True, 'rec_reads': r['rec_reads']})
+                    continue
+                t = {'rec_reads': r['rec_reads']}
+                env_in = rec.get_data(IN_KEY)['value']
+                env_out = rec.get_data(OUT_KEY)
+                t['in'] = {'stored': digest_hex(bytes(env_in['file_content']).hex()), 'path': pval(env_in['file_path'])}
+                if case['decoy']:
+                    h_write(os.path.join(rep_dir, 'decoy.bin'), b'decoy')
+                state['delivery'], state['dir'] = dl, rep_dir
+                for k in ('rep_ret', 'rep_seen', 'rep_watch', 'rep_out_written'):
+                    state.pop(k, None)
+                _SPY['log'] = []
+                _SPY['on'] = True
+                try:
+                    pb = tr.play(r['rid'], lambda recording: Op().run('rep'))
+                finally:
+                    _SPY['on'] = False
+                t['rep_reads'] = [canon_path(p) for p in _SPY['log']]
+                t['restored_ret'] = state.get('rep_ret')
+                seen = state.get('rep_seen')
+                t['restored_bytes'] = None if seen is None else digest_hex(seen.hex())
+                t['rep_decoy'] = (lambda b: None if b is None else b.hex())(state['rep_watch']['<DIR>/decoy.bin'])
+                with _quiet():
+                    t['written_into_rec_dir'] = sorted(os.listdir(rec_dir))
+                rec_outs = [o for o in pb.recorded_outputs if o.key == OUT_KEY]
+
+                def restore(value):
+                    """(holder content, holder path, holder) - a raising restore is an observation, not a harness failure"""
+                    try:
+                        hd = oh.restore_output_from_recording(value)
+                        return digest_hex(bytes(hd.file_content).hex()), pval(hd.output_file_path), hd
+                    except Exception as ex:
+                        return 'raised ' + type(ex).__name__, None, None
+                hc, hp, _hd = restore(rec_outs[0].value)
+                t['out'] = {'stored': digest_hex(bytes(env_out['file_content']).hex()), 'path': pval(env_out['file_path']),
+                            'holder': hc, 'holder_path': hp}
+                pb_outs = [o for o in pb.playback_outputs if o.key == OUT_KEY]
+                if pb_outs:
+                    hc, hp, hd = restore(pb_outs[0].value)
+                    t['pb'] = {'stored': digest_hex(bytes(pb_outs[0].value['file_content']).hex()),
+                               'path': pval(pb_outs[0].value['file_path']), 'holder': hc, 'holder_path': hp}
+                    if hd is not None:
+                        # the holder can be written out again
+                        q = os.path.join(rep_dir, 'again.bin')
+                        with _quiet():
+                            hd.to_file(q)
+                        t['pb_to_file_ok'] = h_read(q) == bytes(hd.file_content)
+                else:
+                    t['pb'] = None
+                t['_rec_out_written'] = digest_hex(r['rec_out_written'].hex()) if isinstance(r['rec_out_written'], bytes) else None
+                t['_rep_out_written'] = digest_hex(state['rep_out_written'].hex()) if isinstance(state.get('rep_out_written'), bytes) else None
+                results.append(t)
+            return results
         finally:
             _SPY['on'] = False
             shutil.rmtree(tmp, ignore_errors=True)
@@ -588,7 +648,17 @@ class C20(Prop):
     # ------------------------------------------------------------------------------------------------------
     # the model
     # ------------------------------------------------------------------------------------------------------
+    @staticmethod
+    def delivery_case(case, dl):
+        """one operation of a series, as the stand-alone trip the model sees: the handlers carry no state from one
+        operation to the next, so every recording must hold what THAT operation's file held"""
+        c = {k: v for k, v in case.items() if k != 'deliveries'}
+        c.update({'kind': 'trip', 'in': dl['in'], 'out': dl['out']})
+        return c
+
     def model_requests(self, case):
+        if case['kind'] == 'series':
+            return [r for dl in case['deliveries'] for r in self.model_requests(self.delivery_case(case, dl))]
         if case['kind'] == 'path':
             return [{'m': 'c20.path', 'h': {'index': case['index'], 'name': case['name']},
                      'call': call_wire(case['call'], '/P', '/D', False)}]
@@ -613,6 +683,8 @@ class C20(Prop):
                  'out': case['out']}]
 
     def model_transcript(self, case, answers):
+        if case['kind'] == 'series':
+            return [self.model_transcript(self.delivery_case(case, dl), [a]) for dl, a in zip(case['deliveries'], answers)]
         if case['kind'] == 'limit' and not answers:
             return {'error': 'ValueError'}
         a = answers[0]
@@ -633,6 +705,8 @@ class C20(Prop):
         return a
 
     def impl_view(self, case, impl):
+        if case['kind'] == 'series':
+            return [self.impl_view(self.delivery_case(case, dl), t) for dl, t in zip(case['deliveries'], impl)]
         if case['kind'] != 'trip' or 'discarded' in impl:
             return impl
         return {k: v for k, v in impl.items() if k in ('in', 'out', 'pb', 'rec_reads', 'rep_reads', 'restored_ret',
@@ -642,6 +716,10 @@ class C20(Prop):
     # the property, stated directly
     # ------------------------------------------------------------------------------------------------------
     def oracle(self, case, impl):
+        if case['kind'] == 'series':
+            return ['operation %d of %d on one pair of handlers: %s' % (i + 1, len(impl), f)
+                    for i, (dl, t) in enumerate(zip(case['deliveries'], impl))
+                    for f in self.oracle(self.delivery_case(case, dl), t)]
         if case['kind'] == 'path':
             want = documented_path(case['call'], case['index'], case['name'], False)
             got = impl.get('error') or impl['path']
@@ -713,6 +791,8 @@ class C20(Prop):
 
     # ------------------------------------------------------------------------------------------------------
     def nontrivial(self, case, impl):
+        if case['kind'] == 'series':
+            return sum(1 for t in impl if 'discarded' not in t) >= 2
         if case['kind'] == 'trip':
             return 'discarded' not in impl
         if case['kind'] == 'limit':
@@ -721,6 +801,14 @@ class C20(Prop):
 
     def features(self, case, impl):
         out = ['kind:' + case['kind']]
+        if case['kind'] == 'series':
+            out.append('cassette:' + case['cassette'])
+            out.append('series-length:%d' % len(case['deliveries']))
+            ds = case['deliveries']
+            for a, b in zip(ds, ds[1:]):
+                same = content_size(a['in']) == content_size(b['in']) and a['mtime'] is not None and a['mtime'] == b['mtime']
+                out.append('series-step:' + ('same-size-and-mtime' if same and a['in'] != b['in'] else 'other'))
+            return out
         if case['kind'] == 'trip':
             out.append('cassette:' + case['cassette'])
             out.append('static' if case['static'] else 'method')
@@ -741,6 +829,8 @@ class C20(Prop):
         return out
 
     def sample_repr(self, case):
+        if case['kind'] == 'series':
+            return dict(case, deliveries=[self.sample_repr(dict(d, kind='delivery')) for d in case['deliveries']])
         c = dict(case)
         for k in ('in', 'out'):
             if isinstance(c.get(k), dict) and 'hex' in c[k] and len(c[k]['hex']) > 80:
@@ -748,6 +838,14 @@ class C20(Prop):
         return c
 
     def shrink(self, case):
+        if case['kind'] == 'series':
+            ds = case['deliveries']
+            if len(ds) > 2:
+                for i in range(len(ds)):
+                    yield dict(case, deliveries=ds[:i] + ds[i + 1:])
+            if case['cassette'] != 'mem':
+                yield dict(case, cassette='mem')
+            return
         if case['kind'] != 'trip':
             if case['kind'] == 'limit':
                 for i in range(len(case['sizes'])):
@@ -780,6 +878,8 @@ class C20(Prop):
 
     def targeted(self, case, rng):
         out = []
+        if case['kind'] == 'series':
+            return [self.mk_series(rng) for _ in range(60)]
         if case['kind'] == 'limit':
             for _ in range(300):
                 lim, nb = self.rand_limit(rng)
